@@ -20,6 +20,7 @@ RULE = ("Split cases: n=1..60 rows carrying a unique id in column 0 (duplicated 
         "runs opf2txt/opf2csv/opf2json, load_*, parse_loader and Subgraph(from_file=...): features == stored float32 values, labels == stored-1, "
         "ids preserved, identical across the three formats; non-sequential labels are rejected by parse_loader. Non-trivial: duplicates present, "
         "p not in {0,1}, K>=3 (split) / n>=3, f>=2, K>=2 (convert); distinct = case hash.")
+RULE += (' 15% of the conversion cases use signed identifiers (negative first identifier in half of them).')
 ASSUMPTIONS = [
     "files have n>=2 rows and >=1 feature (a one-row text file loads as a 1-D array: outside the statement)",
     "floor(n*p): both the exact rational floor and the float product's floor are accepted when they differ by rounding",
